@@ -174,7 +174,36 @@ AXIS_CLASSES = {'Toric2DCode', 'Planar2DCode', 'RotatedPlanar2DCode', 'Toric3DCo
 CHECKERBOARD_CLASSES = {'RhombicPlanarCode', 'RhombicToricCode'}
 
 
+def check_shared_noise(c):
+    """ONE noise-model object with a deformation name (and the kwargs given, possibly none = every class's own
+    default axis) serves codes of several classes one after the other: on each, the deformed distribution must be
+    the undeformed one relabelled by THAT class's get_deformation -- whatever class came before."""
+    from panqec.error_models import PauliErrorModel
+    name, kw = c['deform'][0], c['deform'][1]
+    try:
+        em0 = PauliErrorModel(0.25, 0.125, 0.625)
+        emd = PauliErrorModel(0.25, 0.125, 0.625, deformation_name=name, deformation_kwargs=dict(kw) if kw else None)
+        idx = {'I': 0, 'X': 1, 'Y': 2, 'Z': 3}
+        for rnd in range(2):
+            for cls, size in c['sequence']:
+                base = K.build(cls, tuple(size))
+                table = table_for(base, name, kw)
+                p0 = em0.probability_distribution(base, 0.25)
+                p1 = emd.probability_distribution(base, 0.25)
+                for qi, q in enumerate(base.qubit_coordinates):
+                    for s_ in 'XYZ':
+                        if p1[idx[s_]][qi] != p0[idx[table[q][s_]]][qi]:
+                            return (f'round {rnd}: one model object, {cls}{tuple(size)} after '
+                                    f'{[x[0] for x in c["sequence"]][:[x[0] for x in c["sequence"]].index(cls)]}: '
+                                    f'P_D({s_}) on qubit {q} is not P(D({s_})) for the deformation this class applies')
+    except Exception as e:  # noqa
+        return f'raised {type(e).__name__}: {e}'
+    return None
+
+
 def check_case(c):
+    if c.get('kind') == 'shared-noise':
+        return check_shared_noise(c)
     cls, size, name, kw = c['class'], tuple(c['size']), c['deform'][0], c['deform'][1]
     try:
         rng = np.random.default_rng(5)
@@ -279,6 +308,19 @@ def oracle(ctx, deep=False, broken=None):
                     c = {'class': cls, 'size': list(size), 'deform': [d[0], d[1]]}
                     if c not in cases:
                         cases.append(c)
+    # one noise-model object across classes (default kwargs: every class applies its own default axis)
+    import panqec.codes as _C
+    byname = {}
+    for cls in K.CLASSES:
+        for nm in getattr(_C, cls).deformation_names:
+            sz = (K.all_sizes(cls, 2, n_max=60) or K.all_sizes(cls, 3, n_max=120) or K.all_sizes(cls, 4, n_max=200))
+            if sz:
+                byname.setdefault(nm, []).append([cls, list(sz[-1])])
+    for nm, seq in byname.items():
+        if len(seq) >= 2:
+            for order in (seq, seq[::-1]):
+                cases.append({'kind': 'shared-noise', 'class': 'several', 'size': [], 'deform': [nm, {}],
+                              'sequence': order})
     fails = first_failures(cases, check_case, key=lambda c: {'class': c['class'], 'deform': c['deform'][0]})
     return fails, {'evaluations': len(cases)}
 
